@@ -26,10 +26,16 @@ func allowIP(ipFilter *ipfilter.IPFilter, ip string) (ok bool)
   ensures ok == (ipFilter == nil || ipfilter.allows(ipFilter, ip))
 
 // ---- C01: which entry matches a request (written from the property statement) ----
-pred hostName(q *httpprot.Request) := hasPort(q.Request.Host) ? hostOnly(q.Request.Host) : q.Request.Host
-pred hostOK(r *muxRule, q *httpprot.Request) := (r.host == "" && r.hostRE == nil) || (r.host != "" && r.host == hostName(q)) || (r.hostRE != nil && reMatch(ref(r.hostRE), hostName(q)))
-pred pathOK(p *MuxPath, q *httpprot.Request) := (p.path == "" && p.pathPrefix == "" && p.pathRE == nil) || (p.path != "" && p.path == q.Request.URL.Path) || (p.pathPrefix != "" && hasPrefix(q.Request.URL.Path, p.pathPrefix)) || (p.pathRE != nil && reMatch(ref(p.pathRE), q.Request.URL.Path))
-pred methodOK(p *MuxPath, q *httpprot.Request) := len(p.methods) == 0 || stringtool.inSlice(q.Request.Method, p.methods)
+// the conditions on host, path and method are functions of three strings of the request (the parts of the
+// route-cache key, C12); only the header conditions look at anything else
+pred hostNameOf(h string) := hasPort(h) ? hostOnly(h) : h
+pred hostOKa(r *muxRule, hn string) := (r.host == "" && r.hostRE == nil) || (r.host != "" && r.host == hn) || (r.hostRE != nil && reMatch(ref(r.hostRE), hn))
+pred pathOKa(p *MuxPath, pa string) := (p.path == "" && p.pathPrefix == "" && p.pathRE == nil) || (p.path != "" && p.path == pa) || (p.pathPrefix != "" && hasPrefix(pa, p.pathPrefix)) || (p.pathRE != nil && reMatch(ref(p.pathRE), pa))
+pred methodOKa(p *MuxPath, me string) := len(p.methods) == 0 || stringtool.inSlice(me, p.methods)
+pred hostName(q *httpprot.Request) := hostNameOf(q.Request.Host)
+pred hostOK(r *muxRule, q *httpprot.Request) := hostOKa(r, hostName(q))
+pred pathOK(p *MuxPath, q *httpprot.Request) := pathOKa(p, q.Request.URL.Path)
+pred methodOK(p *MuxPath, q *httpprot.Request) := methodOKa(p, q.Request.Method)
 pred hdrVal(h *Header, q *httpprot.Request) := headerGet(ref(q.Request.Header), h.Key)
 pred hdrAllOK(h *Header, q *httpprot.Request) := (len(h.Values) == 0 || stringtool.inSlice(hdrVal(h, q), h.Values)) && (h.Regexp == "" || reMatch(ref(h.headerRE), hdrVal(h, q)))
 pred hdrAnyOK(h *Header, q *httpprot.Request) := stringtool.inSlice(hdrVal(h, q), h.Values) || (h.Regexp != "" && reMatch(ref(h.headerRE), hdrVal(h, q)))
@@ -65,7 +71,7 @@ func (mp *MuxPath) rewrite(r *httpprot.Request)
   ensures prefix: mp.rewriteTarget != "" && !(mp.path != "" && mp.path == old(r.Request.URL.Path)) && mp.pathPrefix != "" && hasPrefix(old(r.Request.URL.Path), mp.pathPrefix) ==> r.Request.URL.Path == mp.rewriteTarget ++ substr(old(r.Request.URL.Path), len(mp.pathPrefix), len(old(r.Request.URL.Path)) - len(mp.pathPrefix))
   ensures regexp: mp.rewriteTarget != "" && !(mp.path != "" && mp.path == old(r.Request.URL.Path)) && !(mp.pathPrefix != "" && hasPrefix(old(r.Request.URL.Path), mp.pathPrefix)) ==> r.Request.URL.Path == (mp.pathRE != nil ? reReplace(ref(mp.pathRE), old(r.Request.URL.Path), mp.rewriteTarget) : old(r.Request.URL.Path))
 
-// ---- search: first match wins, IP filters deny with 403, 400 / 405 / 404 otherwise ----
+// ---- search: the first decision in rule-then-path order wins; IP filters deny with 403; 400 / 405 / 404 otherwise ----
 pred entryOK(p *MuxPath, r *muxRule, q *httpprot.Request) := hostOK(r, q) && pathOK(p, q) && methodOK(p, q) && (len(p.headers) == 0 || headersOK(p, q))
 pred hdrMiss(p *MuxPath, r *muxRule, q *httpprot.Request) := hostOK(r, q) && pathOK(p, q) && methodOK(p, q) && len(p.headers) != 0 && !headersOK(p, q)
 pred mthMiss(p *MuxPath, r *muxRule, q *httpprot.Request) := hostOK(r, q) && pathOK(p, q) && !methodOK(p, q)
@@ -73,36 +79,79 @@ pred ipOKf(f *ipfilter.IPFilter, ip string) := f == nil || ipfilter.allows(f, ip
 pred inRange(mi *muxInstance, i int, j int) := 0 <= i && i < len(mi.rules) && 0 <= j && j < len(mi.rules[i].paths)
 pred before(i int, j int, a int, b int) := i < a || (i == a && j < b)
 pred wfMux(mi *muxInstance) := mi != nil && (forall i int :: 0 <= i && i < len(mi.rules) ==> wfRule(mi.rules[i])) && (mi.ipFilter != nil ==> ipfilter.wfFilter(mi.ipFilter))
-pred routeConstants() := notFound != nil && notFound.code == 404 && forbidden != nil && forbidden.code == 403 && methodNotAllowed != nil && methodNotAllowed.code == 405 && badRequest != nil && badRequest.code == 400
+pred routeConstants() := notFound != nil && notFound.code == 404 && forbidden != nil && forbidden.code == 403 && methodNotAllowed != nil && methodNotAllowed.code == 405 && badRequest != nil && badRequest.code == 400 && allocated(notFound) && allocated(methodNotAllowed)
+// every rule whose host matches, up to (not including) rule n, lets the client pass
+pred rulesAllowBefore(mi *muxInstance, n int, q *httpprot.Request) := forall i2 int :: 0 <= i2 && i2 < n && i2 < len(mi.rules) && hostOK(mi.rules[i2], q) ==> ipOKf(mi.rules[i2].ipFilter, q.realIP)
+
+// ---- C12: the route cache. A cached outcome must be the outcome for every request with that key. ----
+// (host, method, path) match, whatever the headers and the client address are
+pred hmp(mi *muxInstance, i int, j int, h string, m string, p string) := hostOKa(mi.rules[i], hostNameOf(h)) && pathOKa(mi.rules[i].paths[j], p) && methodOKa(mi.rules[i].paths[j], m)
+pred hpOnly(mi *muxInstance, i int, j int, h string, p string) := hostOKa(mi.rules[i], hostNameOf(h)) && pathOKa(mi.rules[i].paths[j], p)
+// no rule whose host matches, before rule n, has an IP filter of its own
+pred noRuleFilterBefore(mi *muxInstance, n int, h string) := forall i2 int :: 0 <= i2 && i2 < n && i2 < len(mi.rules) && hostOKa(mi.rules[i2], hostNameOf(h)) ==> mi.rules[i2].ipFilter == nil
+// position of a cached route in the table (ghost, set when the route is created)
+ghost field route.gi int
+ghost field route.gj int
+pred cachedOK(mi *muxInstance, r *route, h string, m string, p string) := r != nil && allocated(r) && (r.code == 0 ? (inRange(mi, r.gi, r.gj) && r.path == mi.rules[r.gi].paths[r.gj] && len(r.path.headers) == 0 && hmp(mi, r.gi, r.gj, h, m, p) && (forall i2, j2 int :: inRange(mi, i2, j2) && before(i2, j2, r.gi, r.gj) ==> !hmp(mi, i2, j2, h, m, p)) && noRuleFilterBefore(mi, r.gi, h)) : (r.code == 405 ? (r == methodNotAllowed && (forall i2, j2 int :: inRange(mi, i2, j2) ==> !hmp(mi, i2, j2, h, m, p)) && (exists i2, j2 int :: inRange(mi, i2, j2) && hpOnly(mi, i2, j2, h, p) && !methodOKa(mi.rules[i2].paths[j2], m)) && noRuleFilterBefore(mi, len(mi.rules), h)) : (r.code == 404 && r == notFound && (forall i2, j2 int :: inRange(mi, i2, j2) ==> !hpOnly(mi, i2, j2, h, p)) && noRuleFilterBefore(mi, len(mi.rules), h))))
+pred cacheInv(mi *muxInstance) := mi.cache != nil ==> (forall h, m, p string :: arcAdded[ref(mi.cache)][typeTag("routeCacheKey")][boxed("routeCacheKey", h, m, p)] ==> arcTyp[ref(mi.cache)][typeTag("routeCacheKey")][boxed("routeCacheKey", h, m, p)] == typeTag("*route") && cachedOK(mi, ptr(arcVal[ref(mi.cache)][typeTag("routeCacheKey")][boxed("routeCacheKey", h, m, p)], "*route"), h, m, p))
+// Go compares interface-boxed structs field by field, and so does the cache's map
+axiom cache-keys-compare-by-value: forall h1, m1, p1, h2, m2, p2 string :: boxed("routeCacheKey", h1, m1, p1) == boxed("routeCacheKey", h2, m2, p2) ==> h1 == h2 && m1 == m2 && p1 == p2
+// the filter chain checked on a cached route = the filters of the server, the rule and the path (built by mux.reload)
+pred specOf(f *ipfilter.IPFilter) := f == nil ? nil : f.spec
+pred chainsOK(mi *muxInstance) := forall i, j int :: inRange(mi, i, j) ==> (mi.rules[i].paths[j].ipFilterChain != nil ==> ipfilter.wfFilters(mi.rules[i].paths[j].ipFilterChain)) && pathChainOK(mi.rules[i].paths[j].ipFilterChain, specOf(mi.ipFilter), specOf(mi.rules[i].ipFilter), specOf(mi.rules[i].paths[j].ipFilter))
+
+func (mi *muxInstance) getRouteFromCache(req *httpprot.Request) (r *route)
+  requires mi != nil && wfReq(req)
+  requires only-routes-are-cached: mi.cache != nil ==> (forall h, m, p string :: arcAdded[ref(mi.cache)][typeTag("routeCacheKey")][boxed("routeCacheKey", h, m, p)] ==> arcTyp[ref(mi.cache)][typeTag("routeCacheKey")][boxed("routeCacheKey", h, m, p)] == typeTag("*route"))
+  ensures cache-off-never-hits: mi.cache == nil ==> r == nil
+  ensures a-hit-is-what-was-put-under-this-host-method-path: r != nil ==> mi.cache != nil && arcAdded[ref(mi.cache)][typeTag("routeCacheKey")][boxed("routeCacheKey", req.Request.Host, req.Request.Method, req.Request.URL.Path)] && ref(r) == arcVal[ref(mi.cache)][typeTag("routeCacheKey")][boxed("routeCacheKey", req.Request.Host, req.Request.Method, req.Request.URL.Path)]
+
+func (mi *muxInstance) putRouteToCache(req *httpprot.Request, r *route)
+  requires mi != nil && wfReq(req)
+  modifies arcAdded, arcTyp, arcVal
+  ensures cache-off-stores-nothing: mi.cache == nil ==> arcAdded == old(arcAdded) && arcTyp == old(arcTyp) && arcVal == old(arcVal)
+  ensures stored-under-this-host-method-path-only: mi.cache != nil ==> (let c = ref(mi.cache) in (let t = typeTag("routeCacheKey") in (let k = boxed("routeCacheKey", req.Request.Host, req.Request.Method, req.Request.URL.Path) in arcAdded == old(store(arcAdded, c, store(arcAdded[c], t, store(arcAdded[c][t], k, true)))) && arcTyp == old(store(arcTyp, c, store(arcTyp[c], t, store(arcTyp[c][t], k, typeTag("*route"))))) && arcVal == old(store(arcVal, c, store(arcVal[c], t, store(arcVal[c][t], k, ref(r))))))))
 
 // proof witnesses: the (rule, path) position at which search decided (matched entry or denying filter)
 ghost var wi int
 ghost var wj int
 
 func (mi *muxInstance) search(req *httpprot.Request) (res *route)
-  modifies wi, wj
+  modifies wi, wj, arcAdded, arcTyp, arcVal
   requires wfMux(mi) && wfReq(req)
-  requires cache-disabled: mi.cache == nil
   requires route-constants: routeConstants()
+  requires cache-invariant: cacheInv(mi) && chainsOK(mi)
+  ensures cache-invariant-preserved: cacheInv(mi)
   ensures res != nil
   ensures first-match-wins: res.code == 0 ==> inRange(mi, wi, wj) && res.path == mi.rules[wi].paths[wj] && entryOK(mi.rules[wi].paths[wj], mi.rules[wi], req) && (forall i2, j2 int :: inRange(mi, i2, j2) && before(i2, j2, wi, wj) ==> !entryOK(mi.rules[i2].paths[j2], mi.rules[i2], req))
-  ensures routed-only-if-every-applicable-filter-allows: res.code == 0 ==> ipOKf(mi.ipFilter, req.realIP) && ipOKf(mi.rules[wi].ipFilter, req.realIP) && ipOKf(res.path.ipFilter, req.realIP)
+  ensures routed-only-if-every-applicable-filter-allows: res.code == 0 ==> ipOKf(mi.ipFilter, req.realIP) && ipOKf(mi.rules[wi].ipFilter, req.realIP) && ipOKf(res.path.ipFilter, req.realIP) && rulesAllowBefore(mi, wi, req)
   ensures status-codes: res.code == 0 || res.code == 403 || res.code == 400 || res.code == 405 || res.code == 404
   ensures no-entry-matches-otherwise: res.code != 0 && res.code != 403 ==> (forall i, j int :: inRange(mi, i, j) ==> !entryOK(mi.rules[i].paths[j], mi.rules[i], req))
+  ensures no-filter-denies-otherwise: res.code != 0 && res.code != 403 ==> ipOKf(mi.ipFilter, req.realIP) && rulesAllowBefore(mi, len(mi.rules), req)
   ensures bad-request-iff-header-mismatch: res.code != 0 && res.code != 403 ==> (res.code == 400 <==> (exists i, j int :: inRange(mi, i, j) && hdrMiss(mi.rules[i].paths[j], mi.rules[i], req)))
   ensures method-not-allowed-iff-method-mismatch-only: res.code != 0 && res.code != 403 && res.code != 400 ==> (res.code == 405 <==> (exists i, j int :: inRange(mi, i, j) && mthMiss(mi.rules[i].paths[j], mi.rules[i], req)))
   ensures forbidden-only-if-a-filter-denies: res.code == 403 ==> !ipOKf(mi.ipFilter, req.realIP) || (0 <= wi && wi < len(mi.rules) && hostOK(mi.rules[wi], req) && (!ipOKf(mi.rules[wi].ipFilter, req.realIP) || (0 <= wj && wj < len(mi.rules[wi].paths) && !ipOKf(mi.rules[wi].paths[wj].ipFilter, req.realIP) && entryOK(mi.rules[wi].paths[wj], mi.rules[wi], req))))
+  ensures forbidden-is-the-first-decision: res.code == 403 && ipOKf(mi.ipFilter, req.realIP) ==> rulesAllowBefore(mi, wi, req) && (forall i2, j2 int :: inRange(mi, i2, j2) && before(i2, j2, wi, wj) ==> !entryOK(mi.rules[i2].paths[j2], mi.rules[i2], req))
+  ghost at call[1] getRouteFromCache: wi := (r == nil ? wi : r.gi)
+  ghost at call[1] getRouteFromCache: wj := (r == nil ? wj : r.gj)
   ghost at call[2] allowIP: wi := idx$1
+  ghost at call[2] allowIP: wj := 0
   ghost at call[3] allowIP: wi := idx$1
   ghost at call[3] allowIP: wj := idx$2
-  invariant[1] server-filter-passed: ipOKf(mi.ipFilter, req.realIP) && ip == req.realIP
+  ghost at call[1] putRouteToCache: r.gi := idx$1
+  ghost at call[1] putRouteToCache: r.gj := idx$2
+  invariant[1] server-filter-passed: ipOKf(mi.ipFilter, req.realIP) && ip == req.realIP && cacheInv(mi)
+  invariant[1] rule-filters-passed: rulesAllowBefore(mi, idx$1, req)
   invariant[1] none-before: forall i, j int :: inRange(mi, i, j) && i < idx$1 ==> !entryOK(mi.rules[i].paths[j], mi.rules[i], req)
   invariant[1] header-flag: headerMismatch <==> (exists i, j int :: inRange(mi, i, j) && i < idx$1 && hdrMiss(mi.rules[i].paths[j], mi.rules[i], req))
   invariant[1] method-flag: methodMismatch <==> (exists i, j int :: inRange(mi, i, j) && i < idx$1 && mthMiss(mi.rules[i].paths[j], mi.rules[i], req))
-  invariant[2] rule: 0 <= idx$1 && idx$1 < len(mi.rules) && host == mi.rules[idx$1] && hostOK(host, req) && ipOKf(host.ipFilter, req.realIP) && ipOKf(mi.ipFilter, req.realIP) && ip == req.realIP
+  invariant[1] cacheable-means-key-decides: cacheable ==> (forall i, j int :: inRange(mi, i, j) && i < idx$1 ==> !hmp(mi, i, j, req.Request.Host, req.Request.Method, req.Request.URL.Path)) && noRuleFilterBefore(mi, idx$1, req.Request.Host)
+  invariant[2] rule: 0 <= idx$1 && idx$1 < len(mi.rules) && host == mi.rules[idx$1] && hostOK(host, req) && ipOKf(host.ipFilter, req.realIP) && ipOKf(mi.ipFilter, req.realIP) && ip == req.realIP && cacheInv(mi)
+  invariant[2] rule-filters-passed: rulesAllowBefore(mi, idx$1, req)
   invariant[2] none-before: forall i, j int :: inRange(mi, i, j) && before(i, j, idx$1, idx$2) ==> !entryOK(mi.rules[i].paths[j], mi.rules[i], req)
   invariant[2] header-flag: headerMismatch <==> (exists i, j int :: inRange(mi, i, j) && before(i, j, idx$1, idx$2) && hdrMiss(mi.rules[i].paths[j], mi.rules[i], req))
   invariant[2] method-flag: methodMismatch <==> (exists i, j int :: inRange(mi, i, j) && before(i, j, idx$1, idx$2) && mthMiss(mi.rules[i].paths[j], mi.rules[i], req))
+  invariant[2] cacheable-means-key-decides: cacheable ==> (forall i, j int :: inRange(mi, i, j) && before(i, j, idx$1, idx$2) ==> !hmp(mi, i, j, req.Request.Host, req.Request.Method, req.Request.URL.Path)) && noRuleFilterBefore(mi, idx$1, req.Request.Host)
 
 // ---- building a new routing generation (C11 / C12 / C05) ----
 pred chainLen(c *ipfilter.IPFilters) := c == nil ? 0 : len(c.filters)
@@ -138,7 +187,7 @@ func newMuxRule(parentIPFilters *ipfilter.IPFilters, rule *Rule, paths []*MuxPat
 
 // the specification of the route table built from a spec: one rule object per spec rule, one path
 // object per spec path, each path's cached-route chain = [server filter, rule filter, path filter]
-pred ruleBuilt(r *muxRule, sr *Rule, sv *ipfilter.Spec) := r != nil && allocated(r) && allocated(ref(r.paths)) && (r.ipFilter != nil ==> allocated(r.ipFilter)) && r.host == sr.Host && len(r.paths) == len(sr.Paths) && ((sr.IPFilter == nil) <==> (r.ipFilter == nil)) && (r.ipFilter != nil ==> r.ipFilter.spec == sr.IPFilter) && (forall j int :: 0 <= j && j < len(sr.Paths) ==> r.paths[j] != nil && allocated(r.paths[j]) && chainAllocated(r.paths[j].ipFilterChain) && (r.paths[j].ipFilter != nil ==> allocated(r.paths[j].ipFilter)) && r.paths[j].backend == sr.Paths[j].Backend && r.paths[j].path == sr.Paths[j].Path && r.paths[j].pathPrefix == sr.Paths[j].PathPrefix && ((sr.Paths[j].IPFilter == nil) <==> (r.paths[j].ipFilter == nil)) && pathChainOK(r.paths[j].ipFilterChain, sv, sr.IPFilter, sr.Paths[j].IPFilter))
+pred ruleBuilt(r *muxRule, sr *Rule, sv *ipfilter.Spec) := r != nil && allocated(r) && allocated(ref(r.paths)) && (r.ipFilter != nil ==> allocated(r.ipFilter)) && r.host == sr.Host && len(r.paths) == len(sr.Paths) && ((sr.IPFilter == nil) <==> (r.ipFilter == nil)) && (r.ipFilter != nil ==> r.ipFilter.spec == sr.IPFilter) && (forall j int :: 0 <= j && j < len(sr.Paths) ==> r.paths[j] != nil && allocated(r.paths[j]) && chainAllocated(r.paths[j].ipFilterChain) && (r.paths[j].ipFilterChain != nil ==> ipfilter.wfFilters(r.paths[j].ipFilterChain)) && (r.paths[j].ipFilter != nil ==> allocated(r.paths[j].ipFilter)) && r.paths[j].backend == sr.Paths[j].Backend && r.paths[j].path == sr.Paths[j].Path && r.paths[j].pathPrefix == sr.Paths[j].PathPrefix && ((sr.Paths[j].IPFilter == nil) <==> (r.paths[j].ipFilter == nil)) && (r.paths[j].ipFilter != nil ==> r.paths[j].ipFilter.spec == sr.Paths[j].IPFilter) && pathChainOK(r.paths[j].ipFilterChain, sv, sr.IPFilter, sr.Paths[j].IPFilter))
 pred specWF(s *Spec) := s != nil && (forall i int :: 0 <= i && i < len(s.Rules) ==> s.Rules[i] != nil && (forall j int :: 0 <= j && j < len(s.Rules[i].Paths) ==> s.Rules[i].Paths[j] != nil && (forall k int :: 0 <= k && k < len(s.Rules[i].Paths[j].Headers) ==> s.Rules[i].Paths[j].Headers[k] != nil)))
 
 func (m *mux) reload(superSpec *supervisor.Spec, muxMapper context.MuxMapper)
@@ -150,6 +199,8 @@ func (m *mux) reload(superSpec *supervisor.Spec, muxMapper context.MuxMapper)
   ensures new-generation-is-a-fresh-instance: typeIs(m.inst.v, "*muxInstance") && fresh(ptr(ifaceVal(m.inst.v), "*muxInstance")) && ptr(ifaceVal(m.inst.v), "*muxInstance").spec == ptr(ifaceVal(superSpec.objectSpec), "*Spec") && ptr(ifaceVal(m.inst.v), "*muxInstance").superSpec == superSpec
   ensures route-cache-is-never-shared-between-generations: let ni = ptr(ifaceVal(m.inst.v), "*muxInstance") in (ni.cache == nil || fresh(ni.cache))
   ensures server-filter: let ni = ptr(ifaceVal(m.inst.v), "*muxInstance") in ((ni.spec.IPFilter == nil) <==> (ni.ipFilter == nil)) && (ni.ipFilter != nil ==> ni.ipFilter.spec == ni.spec.IPFilter)
+  ensures new-generation-has-an-empty-cache: let ni = ptr(ifaceVal(m.inst.v), "*muxInstance") in cacheInv(ni)
+  ensures new-generation-chains-are-server-rule-path-filters: let ni = ptr(ifaceVal(m.inst.v), "*muxInstance") in chainsOK(ni)
   ensures route-table-built-from-the-spec: let ni = ptr(ifaceVal(m.inst.v), "*muxInstance") in (len(ni.rules) == len(ni.spec.Rules) && (forall i int :: 0 <= i && i < len(ni.spec.Rules) ==> ruleBuilt(ni.rules[i], ni.spec.Rules[i], ni.spec.IPFilter)))
   invariant[1] inst != nil && fresh(inst) && inst.spec == spec && len(inst.rules) == len(spec.Rules) && fresh(inst.rules) && 0 <= i && i <= len(inst.rules) && specWF(spec)
   invariant[1] server-chain: chainAllocated(inst.ipFilterChan) && chainLen(inst.ipFilterChan) == (spec.IPFilter != nil ? 1 : 0) && (inst.ipFilterChan != nil ==> ipfilter.wfFilters(inst.ipFilterChan) && full(inst.ipFilterChan) && specAt(inst.ipFilterChan, 0) == spec.IPFilter)
@@ -158,7 +209,7 @@ func (m *mux) reload(superSpec *supervisor.Spec, muxMapper context.MuxMapper)
   invariant[2] server-chain: chainAllocated(inst.ipFilterChan) && chainLen(inst.ipFilterChan) == (spec.IPFilter != nil ? 1 : 0) && (inst.ipFilterChan != nil ==> ipfilter.wfFilters(inst.ipFilterChan) && full(inst.ipFilterChan) && specAt(inst.ipFilterChan, 0) == spec.IPFilter)
   invariant[2] rule-chain: chainAllocated(ruleIPFilterChain) && allocated(ref(paths)) && chainLen(ruleIPFilterChain) == chainLen(inst.ipFilterChan) + (specRule.IPFilter != nil ? 1 : 0) && (ruleIPFilterChain != nil ==> ipfilter.wfFilters(ruleIPFilterChain) && full(ruleIPFilterChain)) && (spec.IPFilter != nil ==> specAt(ruleIPFilterChain, 0) == spec.IPFilter) && (specRule.IPFilter != nil ==> specAt(ruleIPFilterChain, chainLen(ruleIPFilterChain) - 1) == specRule.IPFilter)
   invariant[2] built: forall k int :: 0 <= k && k < i ==> ruleBuilt(inst.rules[k], spec.Rules[k], spec.IPFilter)
-  invariant[2] paths-built: forall q int :: 0 <= q && q < j ==> paths[q] != nil && allocated(paths[q]) && chainAllocated(paths[q].ipFilterChain) && (paths[q].ipFilter != nil ==> allocated(paths[q].ipFilter)) && paths[q].backend == specRule.Paths[q].Backend && paths[q].path == specRule.Paths[q].Path && paths[q].pathPrefix == specRule.Paths[q].PathPrefix && ((specRule.Paths[q].IPFilter == nil) <==> (paths[q].ipFilter == nil)) && pathChainOK(paths[q].ipFilterChain, spec.IPFilter, specRule.IPFilter, specRule.Paths[q].IPFilter)
+  invariant[2] paths-built: forall q int :: 0 <= q && q < j ==> paths[q] != nil && allocated(paths[q]) && chainAllocated(paths[q].ipFilterChain) && (paths[q].ipFilterChain != nil ==> ipfilter.wfFilters(paths[q].ipFilterChain)) && (paths[q].ipFilter != nil ==> allocated(paths[q].ipFilter)) && paths[q].backend == specRule.Paths[q].Backend && paths[q].path == specRule.Paths[q].Path && paths[q].pathPrefix == specRule.Paths[q].PathPrefix && ((specRule.Paths[q].IPFilter == nil) <==> (paths[q].ipFilter == nil)) && (paths[q].ipFilter != nil ==> paths[q].ipFilter.spec == specRule.Paths[q].IPFilter) && pathChainOK(paths[q].ipFilterChain, spec.IPFilter, specRule.IPFilter, specRule.Paths[q].IPFilter)
   closure[1] ()
   end
 @*/
